@@ -1,0 +1,22 @@
+//go:build verif
+
+package ipmi
+
+// This file is only compiled with -tags verif. It exposes unexported
+// functions to the verification harness in /verif.
+
+// VerifChecksum exposes checksum.
+func VerifChecksum(data []byte) uint8 { return checksum(data) }
+
+// VerifDecodeBCDPlus exposes decodeBCDPlus.
+func VerifDecodeBCDPlus(b []byte, c int) (string, int, error) { return decodeBCDPlus(b, c) }
+
+// VerifDecodePacked6BitAscii exposes decodePacked6BitAscii.
+func VerifDecodePacked6BitAscii(b []byte, c int) (string, int, error) {
+	return decodePacked6BitAscii(b, c)
+}
+
+// VerifDecode8BitAsciiLatin1 exposes decode8BitAsciiLatin1.
+func VerifDecode8BitAsciiLatin1(b []byte, c int) (string, int, error) {
+	return decode8BitAsciiLatin1(b, c)
+}
